@@ -1,11 +1,42 @@
 package loader
 
-import "github.com/jsightapi/jsight-schema-go-library/notations/jschema/internal/schema"
+import (
+	"sort"
 
+	"github.com/jsightapi/jsight-schema-go-library/notations/jschema/internal/schema"
+)
+
+// AddUnnamedTypes hoists the types owned by the types of the root schema into the
+// root type table, transitively. It works on sorted snapshots of the names: ranging
+// over the table while inserting into it visits the inserted entries only sometimes,
+// which made the result differ between runs.
 func AddUnnamedTypes(rootSchema *schema.Schema) {
-	for _, typ := range rootSchema.TypesList() {
-		for unnamed, unnamedTyp := range typ.Schema().TypesList() {
-			rootSchema.AddType(unnamed, unnamedTyp)
+	processed := make(map[string]struct{}, len(rootSchema.TypesList()))
+	for {
+		names := make([]string, 0, len(rootSchema.TypesList()))
+		for name := range rootSchema.TypesList() {
+			if _, ok := processed[name]; !ok {
+				names = append(names, name)
+			}
+		}
+		if len(names) == 0 {
+			return
+		}
+		sort.Strings(names)
+
+		for _, name := range names {
+			processed[name] = struct{}{}
+			typ := rootSchema.TypesList()[name]
+
+			inner := typ.Schema().TypesList()
+			innerNames := make([]string, 0, len(inner))
+			for unnamed := range inner {
+				innerNames = append(innerNames, unnamed)
+			}
+			sort.Strings(innerNames)
+			for _, unnamed := range innerNames {
+				rootSchema.AddType(unnamed, inner[unnamed])
+			}
 		}
 	}
 }
